@@ -21,7 +21,11 @@
 static uint64_t g_seed;
 static int g_w, g_nw, g_rep;
 static long long g_task;
-static char g_desc[900];
+static char g_desc[1800];
+
+/* implementations that already failed against the reference in the current case */
+static const char *g_failed[64];
+static int g_nfailed;
 
 static int
 take(void)
@@ -93,6 +97,7 @@ judge(const char *statname, const char *prim, const char *impl, const char *aspe
 	vf_stat("cmp_ref", 1);
 	vf_stat(statname, 1);
 	if (len == 0 || memcmp(got, exp, len) == 0) return 1;
+	if (g_nfailed < 64) g_failed[g_nfailed ++] = impl;
 	d = first_diff(got, exp, len);
 	n = len - d < 16 ? len - d : 16;
 	snprintf(key, sizeof key, "C12:%s:%s:%s", prim, impl, aspect);
@@ -108,8 +113,14 @@ judge_pair(const char *prim, const char *aspect, const char *ia, const char *ib,
 {
 	char key[200];
 
+	int i;
+
 	vf_stat("cmp_pair", 1);
 	if (len == 0 || memcmp(a, b, len) == 0) return;
+	for (i = 0; i < g_nfailed; i ++) {
+		/* already reported against the reference: the disagreement is explained, no second key */
+		if (g_failed[i] == ia || g_failed[i] == ib) { vf_stat("pair_mismatch_explained", 1); return; }
+	}
 	snprintf(key, sizeof key, "C12:%s:pair-%s-%s:%s", prim, ia, ib, aspect);
 	vf_viol(key, "two implementations disagree", "%s diff_at=%zu", g_desc,
 		first_diff(a, b, len));
@@ -366,6 +377,8 @@ cbc_case(const char *prim, bc_impl *impls, int n, size_t bs,
 	int dir, i, j, c;
 	const char *asp = ch->cnt > 1 ? "split" : "data";
 
+	g_nfailed = 0;
+
 	ref_cbc(bs, 1, key, klen, iv, pt, ct, len);
 	if (len) {
 		unsigned char *back = xmalloc(len);
@@ -546,6 +559,8 @@ ctr_case(const unsigned char *key_, size_t klen, const unsigned char *iv_, uint3
 	int i, j, c;
 	const char *asp = ch->cnt > 1 ? "split" : "data";
 	int last_full = (ch->n[ch->cnt - 1] % 16) == 0;
+
+	g_nfailed = 0;
 
 	ref_ctr32_ks(key, klen, iv_, cc0, exp, nblk);
 	for (u = 0; u < len; u ++) exp[u] ^= pt[u];
@@ -733,7 +748,7 @@ sec_ctr_random(size_t maxlen, int sec, long ncases)
 		if (vf_below(&r, 3) == 0) ch = ch_one(len); else { ch = ch_rand(&r, len, 16); vf_stat("splits", 1); }
 		ctr_desc("aes-ctr-rand", (uint64_t)q, key, klen, iv, cc, len, &ch, off);
 		ctr_case(key, klen, iv, cc, pt, len, &ch, off);
-		vf_distinct("config", "aes-ctr/k%zu/len%zu/%d", klen, len, ch.cnt);
+		vf_distinct("config", "aes-ctr/k%zu/mod16=%zu/kib4=%zu/%d", klen, len % 16, len / 256, ch.cnt);
 		free(pt);
 	}
 }
@@ -753,6 +768,8 @@ ctrcbc_case(const unsigned char *key_, size_t klen, const unsigned char *ctr0, c
 	static const char *MN[4] = { "aes-ctrcbc-encrypt", "aes-ctrcbc-decrypt", "aes-ctrcbc-ctr", "aes-ctrcbc-mac" };
 	int i, j, c, m;
 	const char *asp = ch->cnt > 1 ? "split" : "data";
+
+	g_nfailed = 0;
 
 	memcpy(ctr_exp, ctr0, 16);
 	ref_ctr128_ks(key, klen, ctr_exp, ct, nblk);
